@@ -17,8 +17,27 @@ def register(vc):
                "variables, __typename, node(id), mutations); the plan of each operation is read back as (response path, field, "
                "service) triples. Non-trivial = the plan touches two or more locations, or the federation has multi-homed fields "
                "and the plan has more than one field; distinct = distinct (federation, query, operation) JSON.",
+        "C09": "corpus of the schema pairs that crashed or were silently merged on the pinned tree, then PRNG(seed)-generated lists of "
+               "2-4 service schemas drawn from a universe of objects, interfaces, inputs, enums, unions, scalars and directive "
+               "definitions (objects with random field subsets and field orders); ~75% of the lists get ONE single-point "
+               "incompatibility injected into one service's copy of a shared name (field type, nullability, element nullability, "
+               "argument added/renamed/retyped, default value incl. list defaults and one-sided defaults, enum value "
+               "added/renamed/removed, union member removed/replaced, interface/input field added/renamed, directive location or "
+               "argument, kind changed); every list is merged by gateway.New in 4 service orders. Non-trivial = at least two "
+               "services sharing a name; distinct = distinct case JSON.",
+        "C10": "same generator as C09 with ~35% injected incompatibilities; each list is merged in the identity, reverse and two "
+               "random orders of its services (fresh schema objects per order; Go map order varies per run) and the outcomes and "
+               "merged type systems are compared across orders. Non-trivial = at least two services sharing a name.",
+        "C03": "same generator as C09 with ~8% injected incompatibilities; for every successful merge the merged schema, possible "
+               "types, implements and the routing table are read back through a wrapping planner. Non-trivial = at least two "
+               "services sharing a name.",
     })
     vc.ASSUMPTIONS.update({
+        "C09": ["source schemas are what gqlparser's LoadSchema accepts (no duplicate field/argument/enum value/member names); the check evaluates wf_defb on every generated source",
+                "map iteration order of mergeSchemas only selects which error is reported; error texts are not compared",
+                "applied-directive comparison (mergeDirectiveListsEqual) is modelled but not part of the property's list of incompatibilities"],
+        "C10": ["as C09", "descriptions are excluded from the comparison, as the property says"],
+        "C03": ["as C09", "validity of the merged schema beyond reference-closure is gqlparser's (the harness re-validates queries, not modelled)"],
         "C20": ["the routing table (FieldURLMap) and merged schema are read through a wrapping planner installed with WithPlanner",
                 "route is an abstraction of groupSelectionSet/extractSelection to the location assignment (the full planner model is Gw/Plan.v when present)",
                 "gqlparser is the validity oracle for generated queries"],
